@@ -120,7 +120,7 @@ def _tag(tag):
 
 def nontrivial(op, mres, tag):
     f = op.split()
-    if f[1] in ("loop", "slow", "loopmid"):
+    if f[1] in ("loop", "slow", "loopmid", "idle", "busy"):
         return True
     if f[1] != "hist" or not mres.startswith("ok") or not tag:
         return False
@@ -135,8 +135,8 @@ def branch(op, mres, tag):
     f = op.split()
     if f[1] in ("loop", "loopmid"):
         return f[1] + ":" + mres
-    if f[1] == "slow":
-        return "slow:" + mres
+    if f[1] in ("slow", "idle", "busy"):
+        return f[1] + ":" + mres
     if not mres.startswith("ok") or not tag:
         return "hist:" + mres.split(" ")[0]
     N, I, st = _tag(tag)
@@ -157,6 +157,16 @@ def predicate(op, il, mres, tag):
             return (OBLIGATIONS[0], "exited", "Server.Close() did not end healthCheckLoop within 1 s: " + il)
         if "extra=" in il and not il.endswith("extra=0"):
             return (OBLIGATIONS[0], "exited extra=0", "a health check ran after Close()")
+        return None
+    if f[1] == "idle":
+        if il.split()[1:2] != ["200"] or "loop-not-ended" in il:
+            return ("Relic.Props.C20.healthy_iff", "ok 200", "a server on which nothing is disabled and no check has failed (%s served tokens) "
+                    "answered /health with %s after %s ms" % (f[2], il, f[4]))
+        return None
+    if f[1] == "busy":
+        if il != "ok 200":
+            return ("Relic.Props.C20.healthy_iff", "ok 200", "/health while a token ping hangs (previous round healthy, less than an interval "
+                    "ago): " + il)
         return None
     if f[1] == "slow":
         ntok, ping, wait, iv = (int(x) for x in f[2:6])
